@@ -385,6 +385,9 @@ func runC20(w *fw.Worker) {
 			c20BlankConcurrent(w, i, r)
 		case i%24 == 15:
 			c20BlankDoneVsSetSource(w, i, r)
+		case i%24 == 7:
+			// a Done that expired undelivered does not use up the Blank's right (and duty) to forward the next one
+			blankDoneRetry(w, i, r, "C20")
 		default:
 			c20Twin(w, i, r)
 		}
